@@ -9,10 +9,13 @@ API
 ---
 mods()                                -> (mpyc.runtime module, mpyc.asyncoro module), imported with a
                                          neutral sys.argv (mpyc parses sys.argv on import)
-make_runtime(m, t, pid, no_prss=False, key_fn=None) -> Runtime
+make_runtime(m, t, pid, no_prss=False, key_fn=None, option_t=None) -> Runtime
       real Runtime for party `pid` of `m` with threshold `t`; `parties[pid].protocol` is a Future
       (as after Runtime.start), all other `protocol`s None.  key_fn(subset) -> 16 bytes replaces the
-      secrets.token_bytes keys (same dict keys) to make runs reproducible.
+      secrets.token_bytes keys (same dict keys) to make runs reproducible.  option_t: the start-up
+      option value (rt.options.threshold) when it differs from the threshold in force: the runtime
+      is built with option_t and then `rt.threshold = t` is assigned, as a program does with
+      `mpc.threshold = t` before `mpc.start()`.
 reset_protocols(rt)                   fresh `parties[pid].protocol` Future, peers' protocols None
                                       (set_protocol resolves that Future once all peers are connected)
 FakeTransport()                       .write/.writelines/.close record into .writes; .take() -> bytes
@@ -53,16 +56,19 @@ def mods():
     return _mods
 
 
-def make_runtime(m, t, pid, no_prss=False, key_fn=None):
+def make_runtime(m, t, pid, no_prss=False, key_fn=None, option_t=None):
     R, A = mods()
     opts = argparse.Namespace(**vars(R.mpc.options))
-    opts.threshold = t
+    opts.threshold = t if option_t is None else option_t
     opts.no_prss = bool(no_prss)
     opts.no_log = True
     opts.M = m
     opts.index = pid
     parties = [R.Party(i) for i in range(m)]
     rt = R.Runtime(pid, parties, opts)           # threshold setter draws the PRSS keys (unless no_prss)
+    if option_t is not None and option_t != t:
+        rt.threshold = t                         # the program assigns mpc.threshold before mpc.start():
+        #                                          keys are redrawn for t; rt.options.threshold stays option_t
     if key_fn is not None and not no_prss:
         for subset in list(rt._prss_keys):
             k = bytes(key_fn(subset))
